@@ -34,17 +34,37 @@ void mon_input(uint8_t b)
                 }
                 int len = M->line_len;
                 M->line_len = 0; M->line_nonblank = 0;
+                if (M->doomed) {
+                        int reason = M->doomed, crlf = M->doom_crlf;
+                        M->doomed = 0; M->doom_crlf = 0;
+                        ref_on_doomed_line(reason, crlf);
+                        return;
+                }
                 ref_on_line(I.line, len);
+                return;
+        }
+        if (M->doomed) {
+                if (b == '\r') M->doom_crlf = 1;
                 return;
         }
         if (M->line_len >= W.line_max) mcx_fatal("line longer than line_max=%d", W.line_max);
         I.line[M->line_len++] = b;
         if (b != '\r') M->line_nonblank = 1;
+        if (W.merge_doomed) {
+                int reason = ref_prefix_doomed(I.line, M->line_len);
+                if (reason) {
+                        int seen = 0, crlf = 0;
+                        for (int i = 0; i < M->line_len; i++) { if (I.line[i] == '\r') { if (seen) crlf = 1; } else seen = 1; }
+                        M->doomed = (uint8_t)reason; M->doom_crlf = (uint8_t)crlf;
+                        memset(I.line, 0, M->line_len);
+                        M->line_len = 0;
+                }
+        }
 }
 
 int mon_at_line_boundary(void)
 {
-        return M->line_len == 0 && M->c.phase == R_NONE && fifo_empty(&M->fc);
+        return M->line_len == 0 && !M->line_nonblank && M->c.phase == R_NONE && fifo_empty(&M->fc);
 }
 
 /* ------------------------------------------------------------------ */
@@ -101,7 +121,7 @@ void evt_advance(void)
         }
 }
 
-static void evt_maybe_complete(void)
+void evt_maybe_complete(void)
 {
         if (M->cur_valid && M->e.phase == R_FINAL && fifo_empty(&M->fe)) {
                 M->q[M->cur].complete = 1;
@@ -271,8 +291,8 @@ static void cmd_unit_done(void)
         fifo_pop(&M->fc);
         if ((M->c.phase == R_FINAL || M->c.phase == R_HOLD_REL) && fifo_empty(&M->fc)) {
                 M->rel_mask = 0;
-                memset(I.line, 0, (size_t)W.line_max);
                 ref_line_completed();
+                memset(I.line, 0, (size_t)W.line_max);
         }
 }
 
